@@ -241,7 +241,26 @@ func propC20(c *Ctx) {
 		} else {
 			detail = "cannot find the database and file stores into the merge map keyed by Name"
 		}
-		// the result is built from that map
+		// every entry is stored: the stores are not subject to any condition but their loop's
+		if good {
+			for _, mu := range []*ssa.MapUpdate{dbStore, fileStore} {
+				for _, b := range fn.Blocks {
+					iff, ok := terminator(b).(*ssa.If)
+					if !ok || !b.Dominates(mu.Block()) || b == mu.Block() {
+						continue
+					}
+					if bo, ok := iff.Cond.(*ssa.BinOp); ok && bo.Op == token.LSS && isInduction(bo.X) {
+						continue // loop condition
+					}
+					// error test of the database read is fine (it returns)
+					if bo, ok := iff.Cond.(*ssa.BinOp); ok && isNilConst(bo.Y) {
+						continue
+					}
+					good = false
+					detail = "an entry is stored into the merge map only under a condition: a skipped file entry cannot shadow the database entry of the same name"
+				}
+			}
+		}
 		c.Check("R20.2", fnName(fn)+"/file-after-db", fn.Pos(), good, detail)
 	}
 
